@@ -1,5 +1,7 @@
 mod gen;
 mod pools;
+mod proj;
+mod rawtopics;
 mod rng;
 mod run;
 mod tree;
@@ -54,6 +56,15 @@ fn main() {
             let n: usize = arg_val(&args, "--n").and_then(|s| s.parse().ok()).unwrap_or(1000);
             let outp = arg_val(&args, "--out").expect("--out");
             let mut out = BufWriter::new(std::fs::File::create(&outp).expect("out file"));
+            {
+                let mut cx = rawtopics::Raw { rng: rng::Rng::new(seed), thorough, n, out: &mut out, count: 0, prefix: topic.clone() };
+                if rawtopics::run_raw_topic(&topic, &mut cx) {
+                    let cnt = cx.count;
+                    out.flush().unwrap();
+                    eprintln!("drive {}: {} records", topic, cnt);
+                    return;
+                }
+            }
             let mut run_rng = rng::Rng::new(seed ^ 0x5555);
             let mut written = 0usize;
             {
